@@ -1,4 +1,6 @@
 """Shared analysis helpers for the rule modules (B3/B4 building blocks)."""
+import re
+
 from ..mir import Callee, base, is_plain, last_seg, loc, op_const, op_int, op_place
 
 PASS_THROUGH = {
@@ -838,3 +840,27 @@ def succ_dom(prog, body, call_blk, site, need_levels=None):
     ok3, why3 = succ_dom(prog, body, cs, site)
     return ok3, (f"checked inside {last_seg(f.defp)}, whose success edge dominates the site" if ok3 else
                  f"the result of {last_seg(f.defp)} (which contains the check) is not success-gated before the site: {why3}")
+
+
+def aead_roles(prog):
+    """(authenticator struct paths, nonce-generator struct paths), by role: an authenticator is a struct that owns the AEAD primitive
+    (a field of the repo's cipher type, the enum that wraps the AEAD implementations) together with a nonce generator; the generator
+    is the other workspace struct among its fields."""
+    cipher = [it for it in prog.items if it["k"] == "enum" and last_seg(it["path"]) == "CipherMethod"]
+    if not cipher:
+        # renamed: the enum whose variants wrap AEAD implementations
+        cipher = [it for it in prog.items if it["k"] == "enum" and sum(1 for v in it["variants"] if any("Gcm" in f[1] or "Poly1305" in f[1] for f in v["fields"])) >= 2]
+    cnames = {last_seg(it["path"]) for it in cipher}
+    structs = {last_seg(it["path"]): it for it in prog.items if it["k"] == "struct"}
+    auths, gens = set(), set()
+    for it in prog.items:
+        if it["k"] != "struct" or "::test" in it["path"]:
+            continue
+        ftys = [fty for (_, fty) in it["fields"]]
+        if any(any(re.search(r"\b" + re.escape(c) + r"\b", f) for c in cnames) for f in ftys):
+            others = [structs[last_seg(f.split("<")[0])] for f in ftys if last_seg(f.split("<")[0]) in structs and last_seg(f.split("<")[0]) not in cnames]
+            others = [o for o in others if o["path"].startswith("octo_squirrel")]
+            if others:
+                auths.add(it["path"])
+                gens |= {o["path"] for o in others}
+    return auths, gens
